@@ -310,6 +310,17 @@ def config_faults() -> List[Tuple[str, str, Callable[[Dict[str, Any], Path], Opt
         return "include_dir"
     add("files-to-include-is-directory", "client", include_is_dir)
 
+    def base_client_only_path(c, r):
+        (r / "my_base.py").write_text("class MyBaseClient:\n    pass\n")
+        c["base_client_file_path"] = "my_base.py"
+        return None  # ("Provided name  cannot be used as python identifier." names the problem as far as the statement asks)
+    add("base-client-path-without-name", "client", base_client_only_path)
+
+    def base_client_only_name(c, r):
+        c["base_client_name"] = "MyBaseClient"
+        return None
+    add("base-client-name-without-path", "client", base_client_only_name)
+
     def include_missing(c, r):
         c["files_to_include"] = ["nope_include.py"]
         return "nope_include.py"
